@@ -1,5 +1,6 @@
 import Driver.Query
 import Driver.Mutate
+import Driver.Builder
 open Lean (Json)
 open Treepath.Driver
 
@@ -12,6 +13,7 @@ def handleLine (line : String) : String :=
     let r : E Json := match fam with
       | "q" => handleQuery j
       | "m" => handleMutate j
+      | "b" => handleBuilder j
       | _ => .error ("unknown family " ++ fam)
     match r with
     | .ok out => (Json.mkObj [("id", id), ("out", out)]).compress
